@@ -165,13 +165,31 @@ func (bt *Tree) Copy() *Tree {
 		nodes = nodes[1:]
 		nodeCopies = nodeCopies[1:]
 		for _, e := range n.edges {
-			cpt := &node{key: e.target.key, data: e.target.data}
+			cpt := &node{key: e.target.key, data: copyData(e.target.data)}
 			cpn.edges = append(cpn.edges, &edge{label: e.label, target: cpt})
 			nodes = append(nodes, e.target)
 			nodeCopies = append(nodeCopies, cpt)
 		}
 	}
 
+	return cp
+}
+
+// copyData copies a node's sequences. The copy must not share them with the
+// original: updates to the original replace entries of the data slice and also
+// write into the sequences' bytes in place, and a reader of the copy (a query
+// that includes the memstore) would see those later updates in the rows it has
+// not read yet.
+func copyData(data []encoding.Sequence) []encoding.Sequence {
+	if data == nil {
+		return nil
+	}
+	cp := make([]encoding.Sequence, len(data))
+	for i, seq := range data {
+		if seq != nil {
+			cp[i] = append(encoding.Sequence(nil), seq...)
+		}
+	}
 	return cp
 }
 
